@@ -7,7 +7,7 @@ from impl import trees, grammar, quiet
 from props.c07 import REORD
 
 ID = "C08"
-MODULE = ['TT.Props.C08', 'TT.Props.C08More']
+MODULE = ['TT.Props.C08', 'TT.Props.C08More', 'TT.Props.C08Net']
 RULE = ("random treebanks in which the same rule occurs repeatedly and under different parents; grammar types treebank / "
         "leftright / optimal; deterministic and Markov v,h in 0..3 with/without nofanout; mass balance per label and per "
         "symbol on the implementation's dicts. Non-trivial: some count exceeds 1")
